@@ -1171,6 +1171,16 @@ impl Monitor for C18 {
         check(env, case)
     }
 
+    fn sidecar(&self, env: &Env) -> Vec<SidecarReport> {
+        // thorough tier: a fixed set of documents (pass / fail with each renderer / hostile bytes / big CR LF output /
+        // timeout / skip / state carry / cram / parse error / create / update) with the scrut process under memcheck
+        if env.tier == Tier::Thorough {
+            vec![crate::memcheck::run_memcheck("C18", env, crate::memcheck::standard_docs())]
+        } else {
+            vec![]
+        }
+    }
+
     fn shrink(&self, case: &C18Case) -> Vec<C18Case> {
         shrink(case)
     }
